@@ -1,23 +1,20 @@
 import GoLevel.Proofs.DurableMain
 /-!
 Job steps whose storage operation fails (`Outcome.failNoEffect`, `Outcome.failEffect`): the invariant is preserved
-for every failure of every operation, with one exclusion and one condition on the configuration:
-
-* `Act.noSyncFault`: the manifest `Sync` of a commit does not fail (the second shape of D10; not covered);
-* `Cfg.D26Repaired` (or `Act.noD26`): a `SetMeta` that fails after it took effect keeps the invariant only with the
-  repaired cleanup of `newManifest`.
+for every failure of every operation, with one condition on the configuration: `Cfg.D26Repaired` (or `Act.noD26`) — a
+`SetMeta` that fails after it took effect keeps the invariant only with the repaired cleanup of `newManifest`.
 
 Covered: create / write / sync of an output table (the half-made table is dropped, the job retries; a recovery
 gives up), the journal `newMem` creates in a recovery, the creation / write / sync of a new manifest and a
 `SetMeta` that fails without effect (the new manifest is dropped — or kept, not current, when `GetMeta` fails as
 well —, the commit is retried), the append of a record to the manifest that fails without effect
 (`manifestFailed`: the retry writes a fresh manifest, the repair of D8), the removal of the old manifest (logged
-only, the repair of D27), every removal of an obsolete file (logged only) — and the two operations that put the
-storage *ahead of the session* (`Inv.enter_limbo`): the append of the record failing after it reached the file
-(`inv_job_append_normal_failEffect`) and `SetMeta` failing after `CURRENT` was switched
-(`inv_job_rotSetMeta_failEffect`).  `inv_step_faults` (every good configuration, `Act.faultsOK`) and
-`inv_step_repaired` (the repaired configuration, `Act.noSyncFault`) are the two step theorems; both carry the
-standing condition `LimboSafe` in `InvL`.
+only, the repair of D27), every removal of an obsolete file (logged only) — and the three operations that put the
+storage *ahead of the session* (`Inv.enter_limbo_core`): the append of the record failing after it reached the file
+(`inv_job_append_normal_failEffect`), the manifest `Sync` failing with the record in the file, durable or not
+(`inv_job_sync_fault`), and `SetMeta` failing after `CURRENT` was switched (`inv_job_rotSetMeta_failEffect`).
+`inv_step_faults` (every good configuration, `Act.faultsOK`) and `inv_step_repaired` (the repaired configuration, no
+condition on the action) are the two step theorems; both carry the standing condition `LimboSafe` in `InvL`.
 -/
 namespace GoLevel.Dur
 
@@ -498,9 +495,13 @@ theorem inv_job_rotRemove_any {cfg : Cfg} {s : St} {d : Disk} (h : Inv cfg s d) 
     append of the record, `SetMeta`): the session fails the commit and retries it through `newManifest`, while every
     crash image shows the edit or may show it.  The ghost `St.limbo` records the edit; `d'` is the storage after the
     operation, `mf'` the manifest `CURRENT` names there. -/
-theorem Inv.enter_limbo {cfg : Cfg} {s : St} {d d' : Disk} (h : Inv cfg s d) {j : Job} (hj : s.job = some j)
+theorem Inv.enter_limbo_core {cfg : Cfg} {s : St} {d d' : Disk} (h : Inv cfg s d) {j : Job} (hj : s.job = some j)
     (hph : s.phase = .running) {e : MRec} (he : j.edit = some e)
-    (hpcs : j.pc = .append ∨ ∃ m, j.pc = .rotSetMeta m)
+    (hnr : ∀ m, j.pc ≠ .rotRemove m) (hfp : j.pc.uninstalled = true)
+    (hlf : s.stJn ≤ e.jn.getD s.stJn ∧ s.stSq ≤ e.sq.getD s.stSq ∧
+      ∀ t ∈ s.live, (∀ a ∈ e.added, t < a) ∧ ∀ g ∈ tableGrpsOf d t, g.fin ≤ s.stSq + 1)
+    (hin : InputsOK s d { j with pc := .append } e)
+    (hod : ∀ o ∈ j.outs, lookup d.tables o.1 = some ⟨o.2, true, false⟩)
     (hjr : d'.journals = d.journals) (htb : d'.tables = d.tables)
     (hdisk : DiskOK cfg d' (must s) (issuedGrps s)) (hmm : ManifestMono cfg d')
     {mf' : LogFile MRec} (hcur' : curManifest d' = some mf')
@@ -515,12 +516,7 @@ theorem Inv.enter_limbo {cfg : Cfg} {s : St} {d d' : Disk} (h : Inv cfg s d) {j 
   have hok := h.job
   rw [hj] at hok
   have hok : JobOK cfg s d j := hok
-  have hbc : j.pc.beforeCommit = true := by
-    rcases hpcs with e1 | ⟨m, e1⟩ <;> rw [e1] <;> rfl
-  have hlate : j.pc ≠ .mkJournal ∧ j.pc.tablesDone = true := by
-    rcases hpcs with e1 | ⟨m, e1⟩ <;> rw [e1] <;> exact ⟨(by intro x; cases x), rfl⟩
-  have hnr : ∀ m, j.pc ≠ .rotRemove m := by intro m hm; rw [hm] at hbc; cases hbc
-  obtain ⟨_, _, _, _, _, hjnle, _, _, hsqle, hlive⟩ := h.commit_view' hj he hbc hlate
+  obtain ⟨hjnle, hsqle, hlive⟩ := hlf
   have hnrec : j.isRecov = false := by
     cases hk : j.isRecov with
     | false => rfl
@@ -566,7 +562,7 @@ theorem Inv.enter_limbo {cfg : Cfg} {s : St} {d d' : Disk} (h : Inv cfg s d) {j 
         unfold FlushPending
         show Holds' s.job _
         rw [hj]
-        exact fun _ => hbc, rfl, rfl⟩)
+        exact fun _ => hfp, rfl, rfl⟩)
       (by rw [hcur']; exact hrel) hlimbo
   · intro hr
     have : s.phase = .recovering := hr
@@ -575,7 +571,7 @@ theorem Inv.enter_limbo {cfg : Cfg} {s : St} {d d' : Disk} (h : Inv cfg s d) {j 
     have : s.phase = .crashed := hc
     rw [hph] at this; cases this
   · show JobOK cfg _ d' j'
-    refine ⟨k1, k2.transport rfl rfl rfl rfl rfl rfl rfl rfl rfl rfl rfl rfl (fun _ => hbc) rfl rfl (fun _ => rfl), ?_,
+    refine ⟨k1, k2, ?_,
       ⟨k4.1, fun _ => ?_⟩, k5, ?_, trivial, ?_, ?_, (fun hn => by
         have : j.edit = none := hn
         rw [he] at this; cases this), ?_, (fun hb => by cases hb)⟩
@@ -602,8 +598,7 @@ theorem Inv.enter_limbo {cfg : Cfg} {s : St} {d d' : Disk} (h : Inv cfg s d) {j 
       unfold OutOK
       intro _
       rw [htb]
-      exact holds_of_some (JobOK.outs_on_disk ⟨k1, k2, k3, k4, k5, k6, k7, k8, k9, k10, k11, k12⟩ hbc hlate.2 o
-        (List.mem_of_getElem? hio)) rfl
+      exact holds_of_some (hod o (List.mem_of_getElem? hio)) rfl
     · unfold MkJournalOK
       show match j.mkJournal with
         | none => True
@@ -613,8 +608,41 @@ theorem Inv.enter_limbo {cfg : Cfg} {s : St} {d d' : Disk} (h : Inv cfg s d) {j 
     · rw [hlv']
       exact hlast.imp (fun v _ => late_not_rm (j := j')
         ⟨(by intro l x; cases x), (by intro l x; cases x), (by intro l x; cases x)⟩)
-    · exact Holds'.imp (o := j.edit) k11 (fun e0 he0 => he0.transport (j' := j') rfl rfl (fun _ => rfl) (fun _ => hbc)
-        (fun _ => rfl) (fun _ t _ => by rw [htb]))
+    · show Holds' j.edit _
+      rw [he]
+      exact hin.transport (j' := j') rfl rfl (fun _ => rfl) (fun hb => hb) (fun _ => rfl) (fun _ t _ => by rw [htb])
+
+/-- … from a pc before the commit (`append`, `rotSetMeta`) -/
+theorem Inv.enter_limbo {cfg : Cfg} {s : St} {d d' : Disk} (h : Inv cfg s d) {j : Job} (hj : s.job = some j)
+    (hph : s.phase = .running) {e : MRec} (he : j.edit = some e)
+    (hpcs : j.pc = .append ∨ ∃ m, j.pc = .rotSetMeta m)
+    (hjr : d'.journals = d.journals) (htb : d'.tables = d.tables)
+    (hdisk : DiskOK cfg d' (must s) (issuedGrps s)) (hmm : ManifestMono cfg d')
+    {mf' : LogFile MRec} (hcur' : curManifest d' = some mf')
+    (hviews : ∀ k ≤ mf'.unsynced.length, Holds (viewAt cfg mf' k) fun v =>
+        v.sq ≤ sqCap s j ∧ v.nf ≤ s.nextFile ∧ v.jn ≤ s.jcur ∧ ∀ o ∈ j.outs, v.nf ≤ o.1 ∨ o.1 ∈ v.live)
+    (hlast : Holds (viewAt cfg mf' mf'.unsynced.length) (MirrorE s e))
+    (hmfd : s.manifestFd = d'.current ∨ Holds s.manifestFd fun o => Holds d'.current fun c => o < c)
+    (hcurlt : Holds d'.current (· < s.nextFile))
+    (hrel : Holds (viewAt cfg mf' 0) fun v0' => Holds (curManifest d) fun mf => Holds (viewAt cfg mf 0) fun v0 =>
+      v0.jn ≤ v0'.jn) :
+    Inv cfg { s with manifestFailed := true, limbo := some e, job := some { j with pc := .append } } d' := by
+  have hok := h.job
+  rw [hj] at hok
+  have hok : JobOK cfg s d j := hok
+  have hbc : j.pc.beforeCommit = true := by
+    rcases hpcs with e1 | ⟨m, e1⟩ <;> rw [e1] <;> rfl
+  have hlate : j.pc ≠ .mkJournal ∧ j.pc.tablesDone = true := by
+    rcases hpcs with e1 | ⟨m, e1⟩ <;> rw [e1] <;> exact ⟨(by intro x; cases x), rfl⟩
+  have hnr : ∀ m, j.pc ≠ .rotRemove m := by intro m hm; rw [hm] at hbc; cases hbc
+  obtain ⟨_, _, _, _, _, hjnle, _, _, hsqle, hlive⟩ := h.commit_view' hj he hbc hlate
+  have hin := hok.inputs
+  rw [he] at hin
+  have hin : InputsOK s d j e := hin
+  exact h.enter_limbo_core hj hph he hnr (JPc.uninstalled_of_bc hbc) ⟨hjnle, hsqle, hlive⟩
+    (hin.transport (j' := { j with pc := .append }) rfl rfl (fun _ => rfl) (fun _ => hbc) (fun _ => rfl)
+      (fun _ _ _ => rfl))
+    (hok.outs_on_disk hbc hlate.2) hjr htb hdisk hmm hcur' hviews hlast hmfd hcurlt hrel
 
 theorem JobOK.running_of_not_recov {cfg : Cfg} {s : St} {d : Disk} {j : Job} (h : JobOK cfg s d j)
     (hk : j.isRecov = false) : s.phase = .running := by
@@ -819,6 +847,149 @@ theorem inv_job_rotSetMeta_failEffect {cfg : Cfg} (hg : cfg.Good) {s : St} {d : 
       simp only [Holds, hcur, hparts.hv0]
       exact hmono'
 
+theorem stepJob_sync_fault {cfg : Cfg} {s : St} {d : Disk} {j : Job} {e : MRec} {m : Nat} {rot : Bool} {o : Outcome}
+    (hpc : j.pc = .sync) (hm : s.manifestFd = some m) (he : j.edit = some e) (ho : o.failed = true) :
+    stepJob cfg s d j rot o =
+      some (failTo { s with manifestFailed := true, limbo := some e } j .append, d.exec (.sync .manifest m) o) := by
+  simp [stepJob, hpc, hm, ho, he]
+
+/-- **the second shape of D10**: the `Sync` of the manifest after the append of the commit's record reports an error —
+    with the record durable (`failEffect`) or not.  The commit fails (`manifestFailed`) and is retried from `append`
+    through `newManifest`; the record is in the file: `St.limbo`. -/
+theorem inv_job_sync_fault {cfg : Cfg} {s : St} {d : Disk} (h : Inv cfg s d) {j : Job}
+    (hj : s.job = some j) (hpc : j.pc = .sync) {rot : Bool} {o : Outcome} (ho : o.failed = true)
+    {s' : St} {d' : Disk} (hs : stepJob cfg s d j rot o = some (s', d')) : Inv cfg s' d' := by
+  have hok := h.job
+  rw [hj] at hok
+  have hok : JobOK cfg s d j := hok
+  have hnr : ∀ m, j.pc ≠ .rotRemove m := by rw [hpc]; intro m hm; cases hm
+  obtain ⟨e, he⟩ := hok.edit_some (by rw [hpc]; rfl)
+  have hl : s.limbo = none := h.limbo_none_of_post hj he (by rw [hpc]; rfl)
+  have hfd := (h.mfd hj).fd hj hnr hl
+  obtain ⟨mf, v0, v, hparts, hlv, hvl, hvok, hmono⟩ := h.disk.last
+  have hcur := hparts.cur
+  have hcm := hcur
+  unfold curManifest at hcm
+  cases hc : d.current with
+  | none => rw [hc] at hcm; simp at hcm
+  | some m =>
+    have hm : s.manifestFd = some m := by rw [hfd, hc]
+    rw [stepJob_sync_fault hpc hm he ho] at hs
+    simp only [Option.some.injEq, Prod.mk.injEq] at hs
+    obtain ⟨rfl, rfl⟩ := hs
+    have hph0 := h.not_crashed hj
+    have hb := h.bounds hph0
+    -- the manifest clause at `sync`
+    have hman := hok.manifest
+    unfold JobManifestOK at hman
+    rw [he] at hman
+    simp only [hpc, JobManifest] at hman
+    obtain ⟨hopen, hman, hsqle, hinp⟩ := hman
+    obtain ⟨hun, hmir0⟩ := holds_some hman hcur
+    rw [hparts.hv0] at hmir0
+    obtain ⟨hmir0, hfr0⟩ : Mirror s v0 ∧ ∀ a ∈ e.added, v0.nf ≤ a := hmir0
+    rw [holds_iff] at hun
+    obtain ⟨r0, _, hun, _⟩ := hun
+    let e' : MRec := { e with nf := r0.nf }
+    have hshape := hok.shape
+    rw [he] at hshape
+    have htorn : e.torn = false := hshape.2.1
+    have hv_eq : v = ⟨applyEdit v0.live e, e.jn.getD v0.jn, e.sq.getD v0.sq, r0.nf⟩ := by
+      have h0 := hparts.hv0
+      unfold viewAt at h0 hvl
+      simp only [List.take_zero, List.append_nil] at h0
+      rw [hun] at hvl
+      simp only [List.length_singleton, List.take_succ_cons, List.take_zero] at hvl
+      rw [replayM_snoc, view_step h0 e' htorn] at hvl
+      exact (Option.some.inj hvl).symm
+    obtain ⟨m1, m2, m3⟩ := hmir0
+    have hmirE : MirrorE s e v := by
+      rw [hv_eq]
+      exact ⟨by rw [m1], by rw [m2], by rw [m3]⟩
+    have hcom := hok.committed (by rw [hpc]; rfl)
+    rw [hlv] at hcom
+    have hcom : ∀ o ∈ j.outs, o.1 ∈ v.live ∧ lookup d.tables o.1 = some ⟨o.2, true, false⟩ := hcom
+    have hlen : mf.unsynced.length = 1 := by rw [hun]; rfl
+    -- the storage after the operation
+    have hdk : ∃ mf', (d.exec (.sync .manifest m) o).journals = d.journals ∧
+        (d.exec (.sync .manifest m) o).tables = d.tables ∧ (d.exec (.sync .manifest m) o).current = d.current ∧
+        DiskOK cfg (d.exec (.sync .manifest m) o) (must s) (issuedGrps s) ∧
+        ManifestMono cfg (d.exec (.sync .manifest m) o) ∧
+        curManifest (d.exec (.sync .manifest m) o) = some mf' ∧
+        (∀ k ≤ mf'.unsynced.length, viewAt cfg mf' k = some v0 ∨ viewAt cfg mf' k = some v) ∧
+        viewAt cfg mf' mf'.unsynced.length = some v ∧
+        (viewAt cfg mf' 0 = some v0 ∨ viewAt cfg mf' 0 = some v) := by
+      cases o with
+      | ok => cases ho
+      | failNoEffect =>
+        refine ⟨mf, rfl, rfl, rfl, h.disk, h.mm, hcur, fun k hk => ?_, hvl, Or.inl hparts.hv0⟩
+        rw [hlen] at hk
+        rcases Nat.eq_zero_or_pos k with hk0 | hk0
+        · left; rw [hk0]; exact hparts.hv0
+        · right
+          have : k = mf.unsynced.length := by omega
+          rw [this]; exact hvl
+      | failEffect =>
+        have hcs : curManifest { d with manifests := d.manifests.modify m (·.sync) } = some mf.sync := by
+          rw [curManifest_modify hc, hcur]; rfl
+        have hl0 : mf.sync.unsynced.length = 0 := by simp [LogFile.sync]
+        refine ⟨mf.sync, rfl, rfl, rfl, h.disk.manifest_sync hc, h.mm.sync hc ⟨_, _, h.disk⟩, hcs, fun k hk => ?_, ?_,
+          Or.inr ?_⟩
+        · right
+          have : k = 0 := by omega
+          rw [this, viewAt_sync]; exact hvl
+        · rw [hl0, viewAt_sync]; exact hvl
+        · rw [viewAt_sync]; exact hvl
+    obtain ⟨mf', hjr, htb, hce, hdisk, hmm, hcur', hvs, hlast, hv0'⟩ := hdk
+    cases hk : j.isRecov with
+    | true =>
+      rw [failTo_recov hk, giveUp_limbo]
+      exact h.giveUp (hok.recov_phase hk) hdisk hmm
+    | false =>
+      rw [failTo_other hk]
+      have hph := hok.running_of_not_recov hk
+      obtain ⟨v0', hv0e, hvok0, _⟩ := hparts.views 0 (Nat.zero_le _)
+      rw [hparts.hv0] at hv0e; cases hv0e
+      have hbv0 := hb.all mf hcur 0 (Nat.zero_le _) v0 hparts.hv0
+      have hbv := hb.all mf hcur _ (Nat.le_refl _) v hvl
+      rw [seqHi_post hj (by rw [hpc]; rfl)] at hbv0 hbv
+      have hod : ∀ o ∈ j.outs, lookup d.tables o.1 = some ⟨o.2, true, false⟩ := fun o ho => (hcom o ho).2
+      have hfr0' : ∀ o ∈ j.outs, v0.nf ≤ o.1 := fun o ho => hfr0 o.1 (by
+        rw [hshape.1]; exact List.mem_map.2 ⟨o, ho, rfl⟩)
+      have hin := hok.inputs
+      rw [he] at hin
+      have hin : InputsOK s d j e := hin
+      refine h.enter_limbo_core hj hph he hnr (by rw [hpc]; rfl) ⟨?_, hsqle, ?_⟩ ?_ hod hjr htb hdisk hmm hcur' ?_ ?_
+        (Or.inl (by rw [hce]; exact hfd)) (by rw [hce]; exact h.cur_lt hj) ?_
+      · have : v.jn = e.jn.getD v0.jn := by rw [hv_eq]
+        rw [← m2, ← this]
+        exact hmono
+      · exact hvok0.live_clause (s := s) (e := e) (j := j) m1 m3 hshape.1 hfr0'
+      · unfold InputsOK at hin ⊢
+        split
+        · rename_i hkc
+          have hkc' : j.kind = .compaction := hkc
+          rw [if_pos hkc'] at hin
+          obtain ⟨a, b, c, dlt, _⟩ := hin
+          refine ⟨a, b, c, dlt, fun _ => ?_⟩
+          obtain ⟨f1, f2⟩ := hinp a b
+          refine ⟨f1, ?_⟩
+          show outsGrps j = _
+          rw [← f2, hshape.1, added_grps_eq hod]
+          rfl
+        · rename_i hkc
+          have hkc' : ¬ j.kind = .compaction := hkc
+          rw [if_neg hkc'] at hin
+          exact hin
+      · intro k hk'
+        rcases hvs k hk' with hx | hx <;> rw [hx]
+        · exact ⟨hbv0.1, hbv0.2.1, hbv0.2.2 hph, fun o ho => Or.inl (hfr0' o ho)⟩
+        · exact ⟨hbv.1, hbv.2.1, hbv.2.2 hph, fun o ho => Or.inr (hcom o ho).1⟩
+      · rw [hlast]; exact hmirE
+      · rcases hv0' with hx | hx <;> rw [hx] <;> simp only [Holds, hcur, hparts.hv0]
+        · exact Nat.le_refl _
+        · exact hmono
+
 /-! ## the dispatcher -/
 
 /-- the pcs whose step does no storage operation -/
@@ -831,16 +1002,16 @@ theorem stepJob_no_op {cfg : Cfg} {s : St} {d : Disk} {j : Job} {rot : Bool} (o 
 def Cfg.D26Repaired (cfg : Cfg) : Prop :=
   cfg.cleanupChecksCurrent = true ∧ cfg.cleanupKeepsWhenGetMetaFails = true
 
-/-- every step of a job preserves the invariant, whatever its storage operation answers — except a failing manifest
-    `Sync` (`noSyncFault`), and, in the code before the repair of D26, a `SetMeta` that fails after it took effect -/
+/-- every step of a job preserves the invariant, whatever its storage operation answers — except, in the code before
+    the repair of D26, a `SetMeta` that fails after it took effect -/
 theorem inv_job_step_any {cfg : Cfg} (hg : cfg.Good) {s : St} {d : Disk} (h : Inv cfg s d) {j : Job}
-    (hj : s.job = some j) {rot : Bool} {o : Outcome} (hsync : (Act.job rot o).noSyncFault s = true)
+    (hj : s.job = some j) {rot : Bool} {o : Outcome}
     (h26 : (Act.job rot o).noD26 s = true ∨ cfg.D26Repaired) {s' : St} {d' : Disk}
     (hs : stepJob cfg s d j rot o = some (s', d')) : Inv cfg s' d' := by
   by_cases hok : o = .ok
   · subst hok; exact inv_job_step hg h hj hs
   have hfail : o.failed = true := by cases o <;> simp_all [Outcome.failed]
-  simp only [Act.noSyncFault, Act.noD26, hj] at hsync h26
+  simp only [Act.noD26, hj] at h26
   cases hpc : j.pc with
   | tCreate i => exact inv_job_table_step_fault h hj (Or.inl hpc) hfail hs
   | tWrite i => exact inv_job_table_step_fault h hj (Or.inr (Or.inl hpc)) hfail hs
@@ -873,10 +1044,7 @@ theorem inv_job_step_any {cfg : Cfg} (hg : cfg.Good) {s : St} {d : Disk} (h : In
       · simp at h26
       · exact inv_job_rotSetMeta_failEffect hg h hj hpc (by rw [c1, c2]; cases rot <;> rfl) hs
   | rotRemove m => exact inv_job_rotRemove_any h hj hpc hs
-  | sync =>
-    rw [hpc] at hsync
-    simp only at hsync
-    exact absurd (by simpa using hsync) hok
+  | sync => exact inv_job_sync_fault h hj hpc hfail hs
   | install => rw [stepJob_no_op o (by simp [hpc])] at hs; exact inv_job_step hg h hj hs
   | rmJ l =>
     cases l with
@@ -904,11 +1072,11 @@ theorem inv_job_step_any {cfg : Cfg} (hg : cfg.Good) {s : St} {d : Disk} (h : In
       | failEffect => rw [stepJob_rm_failEffect (Or.inr (Or.inr hpc))] at hs; exact inv_job_step hg h hj hs
   | done => rw [stepJob_no_op o (by simp [hpc])] at hs; exact inv_job_step hg h hj hs
 
-/-- every step of the machine under storage faults: every failure of every storage operation except a failing manifest
-    `Sync`, and (before the repair of D26) a `SetMeta` that fails with effect; `LimboSafe` is the standing condition -/
+/-- every step of the machine under storage faults: every failure of every storage operation except (before the repair
+    of D26) a `SetMeta` that fails with effect; `LimboSafe` is the standing condition -/
 theorem inv_step_anyfault {cfg : Cfg} (hg : cfg.Good) {s : St} {d : Disk}
     (h : Inv cfg s d) {a : Act} (hcs : a.writerFaultFree = true ∨ cfg.consumeSeqOnJournalError = true)
-    (hsync : a.noSyncFault s = true) (h26 : a.noD26 s = true ∨ cfg.D26Repaired) (hlim : LimboSafe cfg s)
+    (h26 : a.noD26 s = true ∨ cfg.D26Repaired) (hlim : LimboSafe cfg s)
     {s' : St} {d' : Disk} (hs : step cfg s d a = some (s', d')) : Inv cfg s' d' := by
   cases a with
   | job rot o =>
@@ -917,7 +1085,7 @@ theorem inv_step_anyfault {cfg : Cfg} (hg : cfg.Good) {s : St} {d : Disk}
     | none => rw [hj] at hs; cases hs
     | some j =>
       rw [hj] at hs
-      exact inv_job_step_any hg h hj hsync h26 hs
+      exact inv_job_step_any hg h hj h26 hs
   | wAppend recs sync o =>
     refine inv_wAppend_any h (fun hf => ?_) hs
     rcases hcs with h1 | h1
@@ -954,13 +1122,6 @@ theorem inv_step_anyfault {cfg : Cfg} (hg : cfg.Good) {s : St} {d : Disk}
   | trCommit => exact inv_step hg h (a := .trCommit) rfl hlim hs
   | trDiscard => exact inv_step hg h (a := .trDiscard) rfl hlim hs
 
-theorem noSyncFault_of_noD10 {s : St} {a : Act} (h : a.noD10 s = true) : a.noSyncFault s = true := by
-  cases a <;> simp_all [Act.noD10, Act.noSyncFault]
-  repeat' split
-  all_goals first
-    | rfl
-    | (simp_all; done)
-
 /-- every step of the machine under storage faults: every failure of every storage operation except D10 and D26 -/
 theorem inv_step_faults {cfg : Cfg} (hg : cfg.Good) {s : St} {d : Disk}
     (h : InvL cfg s d) {a : Act} (hcs : a.writerFaultFree = true ∨ cfg.consumeSeqOnJournalError = true)
@@ -968,7 +1129,7 @@ theorem inv_step_faults {cfg : Cfg} (hg : cfg.Good) {s : St} {d : Disk}
     (hs : step cfg s d a = some (s', d')) : InvL cfg s' d' := by
   have ha' := ha
   simp only [Act.faultsOK, Bool.and_eq_true] at ha'
-  exact ⟨inv_step_anyfault hg h.1 hcs (noSyncFault_of_noD10 ha'.1) (Or.inl ha'.2) h.2 hs,
+  exact ⟨inv_step_anyfault hg h.1 hcs (Or.inl ha'.2) h.2 hs,
     limboSafe_step h.2 (Or.inl ha) hs⟩
 
 /-- the repaired configuration: D10 (commit 5cf4e90) and D26 (commits 8a67fea, 98bd5c2) -/
@@ -978,11 +1139,11 @@ structure Cfg.Repaired (cfg : Cfg) : Prop where
   d10 : cfg.discardKeepsTablesWhenUncertain = true
   d26 : cfg.D26Repaired
 
-/-- **every step of the repaired machine under every storage fault but a failing manifest `Sync`** -/
+/-- **every step of the repaired machine, whatever its storage operation answers** -/
 theorem inv_step_repaired {cfg : Cfg} (hr : cfg.Repaired) {s : St} {d : Disk}
-    (h : InvL cfg s d) {a : Act} (hsync : a.noSyncFault s = true) {s' : St} {d' : Disk}
+    (h : InvL cfg s d) {a : Act} {s' : St} {d' : Disk}
     (hs : step cfg s d a = some (s', d')) : InvL cfg s' d' :=
-  ⟨inv_step_anyfault hr.good h.1 (Or.inr hr.cs) hsync (Or.inr hr.d26) h.2 hs, Or.inr hr.d10⟩
+  ⟨inv_step_anyfault hr.good h.1 (Or.inr hr.cs) (Or.inr hr.d26) h.2 hs, Or.inr hr.d10⟩
 
 theorem invL_run {cfg : Cfg} {P : St × Disk → Act → Bool}
     (hstep : ∀ s d a s' d', InvL cfg s d → P (s, d) a = true → step cfg s d a = some (s', d') → InvL cfg s' d')
@@ -1029,11 +1190,25 @@ theorem inv_run_jobFaults {cfg : Cfg} (hg : cfg.Good) {sd sd' : St × Disk} (h :
     simp only [Act.jobFaultsOnly, Bool.and_eq_true] at ha'
     exact inv_step_faults hg h (Or.inl ha'.1.1) hf hs) ⟨h, Or.inl hl⟩ as hal hr).1
 
-/-- the repaired machine, every storage fault but a failing manifest `Sync` -/
+/-- the repaired machine, every run -/
 theorem inv_run_repaired {cfg : Cfg} (hrep : cfg.Repaired) {sd sd' : St × Disk} (h : Inv cfg sd.1 sd.2) (as : List Act)
-    (hal : Allowed cfg (fun sd a => a.noSyncFault sd.1) sd as) (hr : run cfg sd as = some sd') :
-    Inv cfg sd'.1 sd'.2 :=
-  (invL_run (P := fun sd a => a.noSyncFault sd.1) (fun _ _ _ _ _ h ha hs => inv_step_repaired hrep h ha hs)
-    ⟨h, Or.inr hrep.d10⟩ as hal hr).1
+    (hr : run cfg sd as = some sd') : Inv cfg sd'.1 sd'.2 := by
+  have key : ∀ (as : List Act) (sd : St × Disk), InvL cfg sd.1 sd.2 → run cfg sd as = some sd' → InvL cfg sd'.1 sd'.2 := by
+    intro as
+    induction as with
+    | nil =>
+      intro sd h hr
+      simp only [run] at hr
+      cases hr
+      exact h
+    | cons a as ih =>
+      intro sd h hr
+      simp only [run] at hr
+      cases hst : step cfg sd.1 sd.2 a with
+      | none => rw [hst] at hr; simp at hr
+      | some sd1 =>
+        rw [hst] at hr
+        exact ih sd1 (inv_step_repaired hrep h hst) hr
+  exact (key as sd ⟨h, Or.inr hrep.d10⟩ hr).1
 
 end GoLevel.Dur
